@@ -43,7 +43,8 @@ def judge(events, meta, res, verdict, only=MINE):
 CONTROLS = {"where-twice": "the INSERT template is instantiated from a second WHERE evaluation after the deletions",
             "insert-first": "insertions applied before deletions", "shared-bnode": "one blank node per label for the whole operation",
             "count-requested": "counts are the sizes of the requested sets", "no-skip": "the allocator does not skip lexical forms the dictionary knows",
-            "late-reject": "deletions applied before a failing INSERT instantiation is noticed"}
+            "late-reject": "deletions applied before a failing INSERT instantiation is noticed",
+            "dedup-solutions": "equal solutions of the WHERE multiset instantiated once (one blank node instead of n)"}
 
 
 def nt_term(t):
